@@ -47,27 +47,8 @@ theorem inode_encoding_size (i : DInode) (h : i.wf) : (encodeInode i).length = I
 /-- A directory entry with a name that fits decodes to itself and occupies exactly one slot. -/
 theorem dirent_roundtrip (inum : Nat) (name : Bytes) (hi : inum < 2 ^ 64) (hn : name.length ≤ MAXNAMELEN) :
     decodeDirEnt (encodeDirEnt inum name) = some (inum, name) ∧
-    (encodeDirEnt inum name).length = DIRENTSZ := by
-  have p64 : (2:Nat) ^ 64 = 256 ^ 8 := by decide
-  have hl : name.length < 256 ^ 8 := by simp [MAXNAMELEN] at hn; omega
-  rw [p64] at hi
-  have hlen : (encodeDirEnt inum name).length = DIRENTSZ := by
-    simp [encodeDirEnt, DIRENTSZ, MAXNAMELEN] at *; omega
-  refine ⟨?_, hlen⟩
-  unfold decodeDirEnt
-  have e1 : (encodeDirEnt inum name).take 8 = le 8 inum := by
-    simp [encodeDirEnt, take_append_len _ _ 8 (le_length 8 inum)]
-  have e2 : ((encodeDirEnt inum name).drop 8).take 8 = le 8 name.length := by
-    unfold encodeDirEnt
-    rw [List.append_assoc, List.append_assoc, drop_append_len _ _ 8 (le_length 8 inum),
-      take_append_len _ _ 8 (le_length 8 _)]
-  have e3 : ((encodeDirEnt inum name).drop 16).take name.length = name := by
-    unfold encodeDirEnt
-    have : (le 8 inum ++ le 8 name.length).length = 16 := by simp
-    rw [List.append_assoc (le 8 inum ++ le 8 name.length), drop_append_len _ _ 16 this, take_append_len _ _ _ rfl]
-  simp only [e1, e2, leNat_le 8 _ hi, leNat_le 8 _ hl, e3, hlen]
-  have : 16 + name.length ≤ DIRENTSZ := by simp [DIRENTSZ, MAXNAMELEN] at *; omega
-  simp [this]
+    (encodeDirEnt inum name).length = DIRENTSZ :=
+  decode_encode_dirent inum name hi hn
 
 /-- A file handle decodes to the inode number and generation it was made from. -/
 theorem fh_roundtrip (inum gen : Nat) (hi : inum < 2 ^ 64) (hg : gen < 2 ^ 64) :
